@@ -40,24 +40,22 @@ def nextperm(l):
 # recursive iterator providing k-deep combinations of
 # p elements of list l. The combinations order is induced
 # by indices of the elements in l.
-def combink(l,p,k):
+def combink(l,p,k,r=None):
     assert k>=0
     n = len(l)
     assert 0<p<=n
-    # create internal "static" variable:
-    if not hasattr(combink,'r'):
-        combink.r = list(range(n))+[-1]
+    # indices chosen so far, private to each initial call (a "static"
+    # variable breaks as soon as an iterator is left unfinished):
+    if r is None:
+        r = list(range(n))+[-1]
     if k<p:
         #print '\t'*k + "k=%d, loop:[%d,%d]"%(k,combink.r[k-1]+1,n-p+k+1)
-        for i in range(combink.r[k-1]+1, n-p+k+1):
-            combink.r[k]=i
-            for x in combink(l,p,k+1):
+        for i in range(r[k-1]+1, n-p+k+1):
+            r[k]=i
+            for x in combink(l,p,k+1,r):
                 yield x
-        # if recursion is back to initial call
-        # then cleanup internal static variable:
-        if k==0: del combink.r
     else:
         #print '\t'*k + 'k=%d, r='%k,combink.r,'yield =>',
-        yield [l[i] for i in combink.r[:p]]
+        yield [l[i] for i in r[:p]]
 
 
